@@ -1401,6 +1401,17 @@ class Harness:
                 elif tl:
                     ckw["capture_timeline"] = True
                 r = self.obj.execute(op, **ckw)
+            elif self.meth == "ctx" and self.sc.get("ctx_block_shared"):
+                # ONE `with policy.context(...) as call:` block around all the calls of the scenario (a worker's loop inside the block)
+                if getattr(self, "_shared_call", None) is None:
+                    ckw2 = dict(ckw)
+                    if "on_metric" in ckw2:
+                        ckw2["on_metric"] = self.shape(self.on_metric)
+                    if "on_log" in ckw2:
+                        ckw2["on_log"] = self.shape(self.on_log)
+                    self._shared_cm = self.obj.context(**ckw2)
+                    self._shared_call = self._shared_cm.__enter__()
+                r = self._shared_call(op)
             elif self.meth == "ctx":
                 with self.obj.context(**ckw) as call:
                     if self.sc.get("ctx_decoy"):
@@ -1450,6 +1461,20 @@ class Harness:
                 elif tl:
                     ckw["capture_timeline"] = True
                 c = self.obj.execute(aop, **ckw)
+            elif self.meth == "ctx" and self.sc.get("ctx_block_shared"):
+
+                async def viashared():
+                    if getattr(h, "_shared_acall", None) is None:
+                        ckw2 = dict(ckw)
+                        if "on_metric" in ckw2:
+                            ckw2["on_metric"] = h.shape(h.on_metric)
+                        if "on_log" in ckw2:
+                            ckw2["on_log"] = h.shape(h.on_log)
+                        h._shared_acm = h.obj.context(**ckw2)
+                        h._shared_acall = await h._shared_acm.__aenter__()
+                    return await h._shared_acall(aop)
+
+                c = viashared()
             elif self.meth == "ctx":
 
                 async def viactx():
